@@ -64,6 +64,12 @@ class Node(object):
                 if ren.get("co_name"):
                     kw["co_name"] = c.co_name + "\udcff"
                 np_ = c.co_argcount + c.co_kwonlyargcount + bool(c.co_flags & 4) + bool(c.co_flags & 8)
+                for fld, suffix in (("co_freevars", "\udc82"), ("co_cellvars", "\udc83")):
+                    if ren.get(fld) is not None and len(getattr(c, fld)) > 0:
+                        xs = list(getattr(c, fld))
+                        i = ren[fld] % len(xs)
+                        xs[i] = xs[i] + suffix
+                        kw[fld] = tuple(xs)
                 if ren.get("varnames") is not None and len(c.co_varnames) > 0:
                     vs = list(c.co_varnames)
                     i = ren["varnames"] % len(vs)
